@@ -18,7 +18,48 @@ _ORDER = {
 
 
 class TokenReading:
-    __slots__ = ("text", "desc_texts", "desc_atom", "desc_order", "atoms", "bonds", "mol", "heavy_mass", "n_atoms")
+    __slots__ = ("text", "desc_texts", "desc_atom", "desc_order", "atoms", "bonds", "mol", "heavy_mass", "n_atoms", "merged_h", "as_written")
+
+
+def merged(r):
+    """The chemical reading of a token: an explicit hydrogen written in a multi-atom token ('CCO[H]', 'NCCCCCCN[H]') is a hydrogen of its
+    neighbour, not an atom of its own (RDKit's reading of SMILES, which the library adopts when it builds fragments, graphs and molecules).
+    Returns a TokenReading whose atoms / bonds / descriptor atoms are re-indexed without those hydrogens; `as_written` keeps the original."""
+    frag = r.mol
+    drop = []
+    on_h = set(a for a in r.desc_atom if a is not None)
+    for a in frag.GetAtoms():
+        if a.GetAtomicNum() == 1 and a.GetIsotope() == 0 and a.GetFormalCharge() == 0 and a.GetDegree() == 1 and a.GetIdx() not in on_h:
+            nb = a.GetNeighbors()[0]
+            if nb.GetAtomicNum() > 1:
+                drop.append(a.GetIdx())
+    if not drop:
+        r.merged_h = ()
+        r.as_written = r
+        return r
+    keep = [i for i in range(frag.GetNumAtoms()) if i not in drop]
+    new = {old: k for k, old in enumerate(keep)}
+    m = TokenReading()
+    m.text, m.desc_texts, m.desc_order = r.text, r.desc_texts, r.desc_order
+    m.desc_atom = [new[a] for a in r.desc_atom]
+    m.atoms = [r.atoms[i] for i in keep]
+    m.bonds = {tuple(sorted((new[i], new[j]))): o for (i, j), o in r.bonds.items() if i in new and j in new}
+    rw = Chem.RWMol(frag)
+    for i in sorted(drop, reverse=True):
+        nb = rw.GetAtomWithIdx(i).GetNeighbors()[0]
+        nb.SetNumExplicitHs(nb.GetNumExplicitHs() + 1)
+        rw.RemoveAtom(i)
+    mm = rw.GetMol()
+    try:
+        Chem.SanitizeMol(mm)
+    except Exception as exc:
+        raise ValueError(f"merged-hydrogen fragment does not sanitise: {exc}")
+    m.mol = mm
+    m.n_atoms = len(keep)
+    m.heavy_mass = r.heavy_mass
+    m.merged_h = tuple(drop)
+    m.as_written = r
+    return m
 
 
 def order_of(bond):
@@ -89,6 +130,8 @@ def read_token(text):
     from rdkit.Chem import Descriptors
 
     r.heavy_mass = Descriptors.HeavyAtomMolWt(frag)
+    r.merged_h = ()
+    r.as_written = r
     return r
 
 
@@ -96,7 +139,9 @@ def lib_fragment(token):
     """The repository's own fragment of a parsed token, read back through RDKit:
     (atoms, bonds, aromatic flags, Hs)"""
     smi = token.generate_smiles_fragment()
-    mol = Chem.MolFromSmiles(smi)
+    params = Chem.SmilesParserParams()
+    params.removeHs = False  # written hydrogens are atoms of the notation
+    mol = Chem.MolFromSmiles(smi, params)
     if mol is None:
         return None
     atoms = [atom_sig(a) for a in mol.GetAtoms()]
